@@ -218,7 +218,7 @@ func RunC17(id, tier string, seed int64) int {
 	var violations []string
 	knownSeen := map[string]string{}
 	tolerated := map[string]int{}
-	replayDir := filepath.Join(VerifDir, "evidence", "replays")
+	replayDir := filepath.Join(OutDir, "evidence", "replays")
 	if old, _ := filepath.Glob(filepath.Join(replayDir, id+"-*.json")); len(old) > 0 {
 		for _, f := range old {
 			_ = os.Remove(f)
